@@ -240,17 +240,16 @@ def number_validator_lang(ctx) -> Lang:
     pats, mode = [], None
     for pa in paths:
         for e in pa.events:
-            if e.kind == "call" and isinstance(e.data["callee"], Foreign) and e.data["callee"].dotted in ("re.match", "re.fullmatch", "re.search"):
-                a = e.data["args"]
-                if len(a) >= 2 and isinstance(a[0], Const) and isinstance(a[0].v, str) and show(a[1]) in ("str(value)", "value"):
-                    m = e.data["callee"].dotted.split(".")[1]
+            if e.kind == "call" and e.data.get("regex"):
+                pat, m, subj = e.data["regex"]
+                if show(subj) in ("str(value)", "value"):
                     if m == "search":
                         raise Undecided("re.search in the number validator")
                     if mode not in (None, m):
                         raise Undecided("mixed match modes")
                     mode = m
-                    if a[0].v not in pats:
-                        pats.append(a[0].v)
+                    if pat not in pats:
+                        pats.append(pat)
     if not pats:
         raise Undecided("no regex literal found in checks.number")
     # the raise must be guarded by 'no pattern matched' over exactly these calls
